@@ -77,11 +77,9 @@ def collectH : Handler := fun j => do
   let files ← getDict getName (← j.getObjVal? "files")
   let table ← getDict getTaxa (← j.getObjVal? "taxa")
   let stage : String :=
-    match cleanAll X files with
-    | .error _ => "clean"
-    | .ok srcs => match parseAll X srcs with
-      | .error _ => "parse"
-      | .ok _ => "makeDb"
+    match parseAll X (cleanAll X files) with
+    | .error _ => "parse"
+    | .ok _ => "makeDb"
   match collect X (oracle table) files with
   | .error e => pure (Json.mkObj [("exc", jName e.name), ("stage", stage)])
   | .ok db => pure (Json.mkObj [("db", jDb db), ("sqlite", jSqlite db)])
